@@ -58,46 +58,85 @@ def build_libs(ctx, tag, cdef, src, want=("api", "so", "ool")):
     return plan
 
 
-def execute(ctx, plan_header, cases, paths, nworkers=4, timeout=1500, runner="harness.call_exec"):
-    """Run the cases in sub-processes; returns ({case id: {path: obs}}, [crash descriptions])."""
-    if not cases:
-        return {}, []
-    nworkers = max(1, min(nworkers, len(cases) // 50 or 1))
-    chunks = [cases[i::nworkers] for i in range(nworkers)]
-    procs = []
-    for i, ch in enumerate(chunks):
-        plan = dict(plan_header)
-        plan["cases"] = ch
-        plan["paths"] = list(paths)
-        pp = os.path.join(plan_header["dir"], "plan_%d_%d.json" % (len(os.listdir(plan_header["dir"])), i))
+def _read_ndjson(path):
+    res = {}
+    if os.path.exists(path):
+        with open(path) as f:
+            for line in f:
+                line = line.strip()
+                if line:
+                    try:
+                        d = json.loads(line)
+                    except ValueError:
+                        continue            # a line cut short by a crash
+                    res[int(d["id"])] = d["obs"]
+    return res
+
+
+def _run_chunk(plan, pp, op, runner, timeout, max_crashes=25):
+    """Run one chunk to completion, restarting the executor after every crash with the crashing
+    (case, path) marked to be skipped; returns (obs, crashes)."""
+    crashes = []
+    ncrash_by_path = {}
+    while True:
+        plan["done"] = sorted(_read_ndjson(op))
         core.write_json(pp, plan)
-        op = pp.replace("plan_", "out_")
+        for suffix in (".ok", ".progress"):
+            if os.path.exists(op + suffix):
+                os.remove(op + suffix)
         p = subprocess.Popen([core.PY, "-m", runner, pp, op], cwd=core.VERIF, env=core.sub_env(),
                              stdout=subprocess.PIPE, stderr=subprocess.STDOUT, text=True)
-        procs.append((p, op, ch))
-    obs, crashes = {}, []
-    for p, op, ch in procs:
         try:
             out, _ = p.communicate(timeout=timeout)
         except subprocess.TimeoutExpired:
             p.kill()
-            out = "timeout"
-        if p.returncode == 0 and os.path.exists(op):
-            with open(op) as f:
-                for k, v in json.load(f).items():
-                    obs[int(k)] = v
-            continue
+            out, _ = p.communicate()
+            raise core.MachineryError("call executor timed out:\n" + (out or "")[-2000:])
+        if p.returncode == 0 and os.path.exists(op + ".ok"):
+            return _read_ndjson(op), crashes
         last = ""
         if os.path.exists(op + ".progress"):
             with open(op + ".progress") as f:
-                lines = f.read().split("\n")
-                last = lines[-2] if len(lines) > 1 else ""
+                lines = [x for x in f.read().split("\n") if x]
+                last = lines[-1] if lines else ""
         if p.returncode is not None and p.returncode < 0 and last:
-            cid = int(last.split()[0])
-            crashes.append({"signal": -p.returncode, "case": [c for c in ch if c["id"] == cid][0],
-                            "path": last.split()[1]})
-        else:
-            raise core.MachineryError("call executor failed (rc=%s, last=%r):\n%s" % (p.returncode, last, (out or "")[-3000:]))
+            cid, path = last.split()[0], last.split()[1]
+            if path == "load":
+                raise core.MachineryError("call executor died (signal %d) while loading the libraries:\n%s" % (
+                    -p.returncode, (out or "")[-2000:]))
+            cid = int(cid)
+            case = [c for c in plan["cases"] if c["id"] == cid][0]
+            crashes.append({"signal": -p.returncode, "case": case, "path": path})
+            plan.setdefault("skip", []).append([cid, path])
+            ncrash_by_path[path] = ncrash_by_path.get(path, 0) + 1
+            if ncrash_by_path[path] >= max_crashes:          # this path is hopeless: stop calling it
+                plan.setdefault("dead", []).append(path)
+            continue
+        raise core.MachineryError("call executor failed (rc=%s, last=%r):\n%s" % (p.returncode, last, (out or "")[-3000:]))
+
+
+def execute(ctx, plan_header, cases, paths, nworkers=4, timeout=1500, runner="harness.call_exec"):
+    """Run the cases in sub-processes; returns ({case id: {path: obs}}, [crash descriptions]).
+    A call that kills the interpreter is recorded as outcome "Crash" for that (case, path) and the
+    executor is restarted for the remaining cases."""
+    if not cases:
+        return {}, []
+    nworkers = max(1, min(nworkers, len(cases) // 50 or 1))
+    chunks = [cases[i::nworkers] for i in range(nworkers)]
+    base = len(os.listdir(plan_header["dir"]))
+    jobs = []
+    for i, ch in enumerate(chunks):
+        plan = dict(plan_header)
+        plan["cases"] = ch
+        plan["paths"] = list(paths)
+        pp = os.path.join(plan_header["dir"], "plan_%d_%d.json" % (base, i))
+        jobs.append((plan, pp, pp.replace("plan_", "out_")))
+    obs, crashes = {}, []
+    with ThreadPoolExecutor(max_workers=nworkers) as ex:
+        for f in [ex.submit(_run_chunk, plan, pp, op, runner, timeout) for plan, pp, op in jobs]:
+            o, c = f.result()
+            obs.update(o)
+            crashes += c
     return obs, crashes
 
 
